@@ -1060,6 +1060,11 @@ impl<'a> CompactionIterator<'a> {
 		// has been passed; versions newer than the REPLACE are not affected by it.
 		let mut replace_seen_above = false;
 
+		// HARD DELETE semantics: a hard delete erases all OLDER versions for good. While the
+		// delete marker is kept it hides them from readers; once the marker itself is
+		// dropped (an older DELETE is always stale) the versions below it must go too.
+		let mut hard_delete_dropped_above = false;
+
 		// Track the visibility of the previous (newer) version we processed.
 		// Used to detect when a newer version supersedes an older one.
 		let mut newer_version_visibility: Option<SnapshotVisibility> = None;
@@ -1137,7 +1142,15 @@ impl<'a> CompactionIterator<'a> {
 				// Latest REPLACE: not stale (will be output)
 				false
 			} else if is_hard_delete {
-				// Older DELETE: always stale (only latest tombstone matters)
+				// Older DELETE: stale (only the latest tombstone matters) - except that with
+				// versioning enabled it is kept while a snapshot older than it is open: a
+				// version below it may be kept for that snapshot and the marker must keep
+				// hiding that version from history reads.
+				!(self.enable_versioning && self.snapshots.first().is_some_and(|&s| s < seq_num))
+			} else if hard_delete_dropped_above {
+				// Older than a hard delete whose marker was dropped: erased by it. Must
+				// not outlive the marker, otherwise the erased version would show up in
+				// the history again.
 				true
 			} else if replace_seen_above && !is_replace {
 				// REPLACE found above: all older non-REPLACE versions are stale
@@ -1188,6 +1201,9 @@ impl<'a> CompactionIterator<'a> {
 			newer_version_visibility = Some(current_visibility);
 			if is_replace {
 				replace_seen_above = true;
+			}
+			if is_hard_delete && should_mark_stale {
+				hard_delete_dropped_above = true;
 			}
 		}
 
